@@ -28,6 +28,12 @@ DESC = {
  "C24": ("Each documented law instance is built twice from fresh objects; in Blocks.tla both sides are ONE definition (MultiCrossBlock, Repeat and CrossBlock are defined through Merge), so both exhausted sets are validated/enumerated against the same meaning, and TLC (MCAgree) also compares the two recorded sets directly.", "6/C24"),
  "C25": ("Nest designs (outer/inner free factors, constraints at the three places, nested Nest, outer MultiCrossBlock): exhausted sets of IterateSATGen and RandomGen against rule R8 of Blocks.tla/Design.tla (sustain groups, group-level crossing, stretched outer constraints) by trace validation and exhaustive enumeration.", "6/C25"),
  "C26": ("The same constraint placed in the repeated/merged/nested block and on the combinator for every constraint kind, with preambles and trailing partial repetitions: exhausted sets of both samplers against the repetition windows of rule R6 (Blocks!Windows) by trace validation and exhaustive enumeration.", "6/C26"),
+ "C14": ("The table (trial, factor, level) -> variable recorded from the real block is judged by VarMap.tla against the applicability rule of Design.tla (bijection onto 1..variables_per_sample, auxiliary variables above); random one-hot assignments are encoded with the table and Gen.decode must return the chosen levels.", "6/C14"),
+ "C15": ("Truth tables covering total, ambiguous and partial derivations (plus ElseLevel, start before/after the default, stride): Blocks!Ambiguous must coincide with the constructor's refusal, Blocks!Partial with an empty result, total ones go through enumeration + trace validation (clauses levels / derived).", "6/C15"),
+ "C19": ("TLC generates every call sequence of the API alphabet up to the bound (SessionGen.tla); each is executed on fresh blocks and the recorded events are trace-validated against Session.tla (no call changes the block's abstract state; every synthesis returns with the columns of the first); synthesized sequences by MCTrace.", "6/C19"),
+ "C20": ("Results of experiments_to_tuples/dicts and the bytes of save_experiments_csv for synthesized and arbitrary experiment lists are judged cell by cell by Output.tla (MCOutput); keys outside the user-declared factors are reported.", "6/C20"),
+ "C21": ("Captured stdout of tabulate_experiments is parsed byte-wise in TLA+ and every row compared with Output!Freq and the percentage for many factor / trial selections.", "6/C21"),
+ "C22": ("Recording CustomDistributions log every call; Continuous.tla replays them (call order, inputs from same-trial dependencies and windows with NaN rules, resampling, returned columns, constraints); built-in distributions: one value per trial and constraints; discrete part by MCTrace.", "6/C22"),
  "C16": ("Blocks.tla states the documented trial-count arithmetic (R1-R8); TLC evaluates it for every generated design and the result is compared with trials_per_sample(); the length clause of MCTrace covers returned sequences of three strategies; constructor refusals must agree with the specification.", "6/C16"),
 }
 TECH = {
@@ -51,6 +57,12 @@ TECH = {
  "C24": "TLC enumeration + trace validation of both sides against one TLA+ definition; MCAgree set comparison",
  "C25": "TLC enumeration + trace validation against Blocks!NestNB / Design sustain rules",
  "C26": "TLC enumeration + trace validation against Blocks!Windows (per-repetition scoping)",
+ "C14": "TLC judges the recorded variable table and decode round trips (VarMap.tla over Design!Applies)",
+ "C15": "TLC: Blocks!Ambiguous / Partial vs constructor outcome; enumeration + trace validation for total derivations",
+ "C19": "TLC-generated call histories replayed on real blocks + trace validation against Session.tla",
+ "C20": "TLC evaluation of Output.tla on recorded conversion results (MCOutput)",
+ "C21": "TLA+ byte-level parse of the printed table vs Output!Freq (MCOutput)",
+ "C22": "TLA+ trace validation of recorded distribution calls (Continuous.tla)",
  "C16": "TLA+ block arithmetic (Blocks.tla) evaluated by TLC vs recorded trial counts",
 }
 EXTRA = {}
